@@ -5,7 +5,7 @@ from hypothesis import strategies as st
 ID = "C48"
 LEVEL = "exploration"
 ENGINE = "E0 pure"
-TECHNIQUE = "grammar-based generation of documented spellings + malformed strings, differential against table-driven reference parsers; print-then-parse metamorphic check; end-to-end through the [storage] config reader"
+TECHNIQUE = "grammar-based generation of documented spellings + malformed strings, differential against table-driven reference parsers; print-then-parse metamorphic check; end-to-end through the [storage] config reader (readonly next to reserved_space, malformed reserved_space)"
 RULE = ("families: duration (number x every documented unit x optional space x case), size (number x K..E x optional i x optional B x optional space x case), "
         "date (valid and calendar-invalid YYYY-MM-DD), malformed (empty, negative, decimal, unit only, double unit, junk suffix, extra fields, look-alike "
         "characters), print-then-parse (abbreviate_space -> parse_abbreviated_size), and tahoe.cfg [storage] sections read by client.py. "
